@@ -49,7 +49,8 @@ def forward_case(draw, tier="quick"):
     zero_off = draw(st.booleans())
     offset = (0, 0) if zero_off else (draw(st.integers(-50, 50)), draw(st.integers(-50, 50)))
     # argument forms: scalars are broadcast to both axes; real and integer inputs are accepted
-    forms = {"shift_scalar": False, "offset_scalar": False, "dtype": draw(st.sampled_from(["complex", "complex", "float", "int", "list"]))}
+    forms = {"shift_scalar": False, "offset_scalar": False, "dtype": draw(st.sampled_from(["complex", "complex", "float", "int", "list"])),
+             "layout": draw(gen.layouts())}
     if not zero_shift and draw(st.sampled_from([False, False, True])):
         shift = (shift[0], shift[0])
         forms["shift_scalar"] = True
@@ -80,6 +81,8 @@ def _call_dft2(case, f=None):
     offset = case["offset"][0] if forms.get("offset_scalar") else tuple(case["offset"])
     if forms.get("dtype") == "list":
         f = np.asarray(f).tolist()
+    else:
+        f = gen.relayout(f, forms.get("layout"))
     return dict(f=f, alpha=alpha, shift=shift, offset=offset, unitary=case["unitary"], **kw)
 
 
